@@ -44,3 +44,12 @@ func (c *Casper) VerifTree() []VerifNode {
 	walk(c.tree)
 	return out
 }
+
+// VerifIsCached reports whether a verification for (target, pubKey) waits in the cache.
+func (c *Casper) VerifIsCached(target bc.Hash, pubKey string) bool {
+	_, ok := c.verificationCache.Get(verificationCacheKey(target, pubKey))
+	return ok
+}
+
+// VerifPendingEpochs is the number of epoch notifications the cached-vote loop has not taken yet.
+func (c *Casper) VerifPendingEpochs() int { return len(c.newEpochCh) }
